@@ -1090,6 +1090,7 @@ pub fn attr_variants() -> Vec<P> {
             pstr(l, StrSize::Fixed(8, false), m, false), pstr(l, StrSize::Fixed(8, true), m, false),
             pstr(l, StrSize::Fixed(1, false), m, false), pstr(l, StrSize::Fixed(1, true), m, false), pstr(l, StrSize::Fixed(0, true), m, false)]);
     }
+    v.extend([pstr('P', StrSize::Pascal(4), None, false), pstr('P', StrSize::Pascal(4), Some(MASK77), false)]);
     v.extend([pstr('m', StrSize::Block(4), Some([0, 7, 16]), false), pstr('m', StrSize::Block(4), Some([0, 0, 1]), false), pstr('m', StrSize::Fixed(8, true), Some([0, 1, 0]), false)]);
     v.extend([pstr('m', StrSize::Block(4), Some([0xff, 0, 0]), false), pstr('z', StrSize::Block(4), Some(MASK77), false),
         pstr('p', StrSize::Pascal(4), None, false), pstr('p', StrSize::Pascal(1), None, false), pstr('p', StrSize::Pascal(4), Some(MASK77), false),
